@@ -253,7 +253,7 @@ func execRealServer(in val.V) val.V {
 	prov := &realProvider{pool: poolOf(in.At(1)), calls: in.At(2).Items()}
 	ts := httptest.NewServer(&sse.Server{Provider: prov})
 	defer ts.Close()
-	client := &http.Client{Timeout: 20 * time.Second}
+	client := &http.Client{Timeout: 20 * time.Second, Transport: &http.Transport{DisableKeepAlives: true}}
 	res, err := client.Get(ts.URL)
 	if err != nil {
 		return val.S("request failed")
